@@ -139,8 +139,45 @@ def sc_pool_after_warmup():
     class FreshB: pass
     return (lambda: is_bearable([FreshA()], typing.List[FreshA])), (lambda: is_bearable([1], typing.Dict[str, typing.List[FreshB]])), lambda: ''
 
+def sc_import_hooked_and_unhooked():
+    """one thread imports a module of a HOOKED package, the other a module of an unhooked one (both for the first time, bytecode caching on):
+    the joint observation is which cache files the unhooked module got"""
+    import tempfile
+    root = tempfile.mkdtemp(prefix='c15imp_'); lock = threading.Lock()
+    def ensure():
+        with lock:
+            d = os.path.join(root, str(os.getpid()))
+            if not os.path.isdir(d):
+                for pkg in ('c15imp_h', 'c15imp_u'):
+                    os.makedirs(os.path.join(d, pkg))
+                    open(os.path.join(d, pkg, '__init__.py'), 'w').close()
+                    open(os.path.join(d, pkg, 'mod.py'), 'w').write('def f(x: int) -> int:\n    return x\n')
+                sys.path.insert(0, d); sys.dont_write_bytecode = False
+            return d
+    def probe(m):
+        try: m.f('not an int'); return 'unchecked'
+        except Exception as e: return 'checked (' + type(e).__name__ + ')'
+    def a():
+        ensure()
+        from beartype.claw import beartype_package
+        beartype_package('c15imp_h')
+        import c15imp_h.mod as m
+        return probe(m)
+    def b():
+        ensure()
+        import c15imp_u.mod as m
+        return probe(m)
+    def joint():
+        d = ensure(); out = []
+        for pkg in ('c15imp_h', 'c15imp_u'):
+            pc = os.path.join(d, pkg, '__pycache__')
+            names = sorted(os.listdir(pc)) if os.path.isdir(pc) else []
+            out.append(pkg + ': ' + ', '.join(('MARKED ' if 'beartype' in n else 'plain ') + n.split('.')[0] for n in names if n.startswith('mod')))
+        return '; '.join(out)
+    return a, b, joint
+
 SCENARIOS = {f.__name__[3:]: f for f in (sc_conf_repr, sc_conf_new, sc_conf_violation_message, sc_typehint_same, sc_is_bearable_same_hint, sc_is_bearable_two_hints,
-                                         sc_decorate_two, sc_decorate_class_and_check, sc_is_subhint, sc_hook_registrations, sc_pool_after_warmup)}
+                                         sc_decorate_two, sc_decorate_class_and_check, sc_is_subhint, sc_hook_registrations, sc_pool_after_warmup, sc_import_hooked_and_unhooked)}
 
 # ---------------------------------------------------------------- the scheduler (runs in a forked child)
 
